@@ -590,6 +590,7 @@ pub fn gen(r: &mut Rng, cases: usize, size: usize, extra: &[String], out: &mut O
                 }
                 if case == 0 {
                     // nesting depth: moderate depth must work, the recorded finding D12 is probed
+                    out.line("clibig hybrid twoval");
                     out.line("clideep neg 400 naive");
                     out.line("clideep and 300 hybrid");
                     out.line("clideep neg 100000 naive");
@@ -953,6 +954,34 @@ impl Exec {
                 out.line(&format!("~ exit={code} {}", stdout.trim_end().replace(' ', "_")));
                 true
             }
+            "clibig" if ws.len() == 3 => {
+                // ten self-supporting statements: 1024 two-valued models, all of which must be printed
+                out.line(l);
+                out.flush();
+                let mut text = String::new();
+                for i in 0..10 {
+                    text += &format!("s(p{i}).");
+                }
+                for i in 0..10 {
+                    text += &format!("ac(p{i},p{i}).");
+                }
+                let file = tmp_file("big.adf");
+                let _ = std::fs::write(&file, text);
+                let flag = format!("--{}", ws[2]);
+                let (code, stdout) = run_cli(&["--lib", ws[1], &flag, file.to_str().unwrap_or("")]);
+                let _ = std::fs::remove_file(&file);
+                let lines: Vec<&str> = stdout.lines().filter(|x| !x.trim().is_empty()).collect();
+                let mut sorted = lines.clone();
+                sorted.sort_unstable();
+                sorted.dedup();
+                let wellformed = lines.iter().all(|ln| {
+                    let toks: Vec<&str> = ln.split_whitespace().collect();
+                    toks.len() == 10 && toks.iter().enumerate().all(|(i, t)| *t == format!("T(p{i})") || *t == format!("F(p{i})"))
+                });
+                out.line(&format!("~ exit={code} lines={} distinct={} wellformed={}", lines.len(), sorted.len(), wellformed as u8));
+                out.line("# case adf n=10 big=1");
+                true
+            }
             "clideep" if ws.len() == 4 => {
                 // a condition nested `depth` levels deep, through the real binary (a stack overflow
                 // aborts the process, so this cannot run inside the harness)
@@ -1195,7 +1224,9 @@ impl Exec {
         let n = self.n;
         let mut lr = Rng::new(lseed);
         let mut wr = Rng::new(wseed);
-        let pool = ["a", "b", "x", "and", "andy", "or", "c", "neg1", "s", "ac", "iff", "xor", "imp", "10", "9", "2", "02", "B", "a10", "a9", "a2", "Zz", "v", "f"];
+        let pool = ["a", "b", "x", "and", "andy", "or", "c", "neg1", "s", "ac", "iff", "xor", "imp", "10", "9", "2", "02", "B", "a10", "a9", "a2", "Zz", "v", "f",
+            // long labels with long common prefixes (orders that look only at a prefix go wrong)
+            "argument", "argument1", "argument10", "argument2", "statementA", "statementB", "statement10", "negative", "neg", "cv"];
         // quoted labels (no blank, no comma, none of the characters biodivine rejects: D6)
         let qpool = ["gr\u{f6}\u{df}e", "it's", "x\\y", "a-b", "p.q", "\u{e4}", "A_1", "z#", "caf\u{e9}", "%"];
         let mut labels: Vec<String> = Vec::new();
@@ -1425,7 +1456,9 @@ impl Exec {
         let mut lr = Rng::new(lseed.parse().ok()?);
         let mut wr = Rng::new(wseed.parse().ok()?);
         // distinct labels from several classes: plain, keyword-like, numeric (lx and an orders differ)
-        let pool = ["a", "b", "x", "and", "andy", "or", "c", "neg1", "s", "ac", "iff", "xor", "imp", "10", "9", "2", "02", "B", "a10", "a9", "a2", "Zz", "v", "f"];
+        let pool = ["a", "b", "x", "and", "andy", "or", "c", "neg1", "s", "ac", "iff", "xor", "imp", "10", "9", "2", "02", "B", "a10", "a9", "a2", "Zz", "v", "f",
+            // long labels with long common prefixes (orders that look only at a prefix go wrong)
+            "argument", "argument1", "argument10", "argument2", "statementA", "statementB", "statement10", "negative", "neg", "cv"];
         let mut labels: Vec<String> = Vec::new();
         while labels.len() < n {
             let cand = if lr.chance(1, 4) {
@@ -1470,7 +1503,8 @@ impl Exec {
         let src: &'static str = Box::leak(txt.into_boxed_str());
         let parser: &'static AdfParser<'static> = Box::leak(Box::new(AdfParser::default()));
         if parser.parse()(src).is_err() {
-            return Some(vec!["= parse-error".into()]);
+            // a well-formed presentation must be accepted: this is the property's business
+            return Some(vec!["= parse-error".into(), "~ rejected".into()]);
         }
         // the parser object may have a history: frameworks built from it before it is sorted, or
         // sorted the other way first
@@ -1539,6 +1573,7 @@ impl Exec {
         let perm_s = perm.iter().map(|x| x.to_string()).collect::<Vec<_>>().join(",");
         Some(vec![
             "= ok".into(),
+            "~ accepted".into(),
             format!("presented {perm_s} {order_s}"),
             format!("= {} ; {} ; {} ; {} ; {}", ac, vec_s(&g), vecs_s(&c), vecs_s(&st), vecs_s(&tv)),
             format!(
